@@ -8,8 +8,8 @@
 set -u
 P=$1; K=$2; shift 2
 CHECKS=${*:-$P}
-WT=/tmp/mf-seed-$P
-OUT=/tmp/mf-seed-out/$P
+R=${SEED_ROUND:-1}
+if [ "$R" = "1" ]; then WT=/tmp/mf-seed-$P; OUT=/tmp/mf-seed-out/$P; else WT=/tmp/mf-seed$R-$P; OUT=/tmp/mf-seed-out$R/$P; fi
 export GOFLAGS=-mod=mod GOPROXY=off GOSUMDB=off GOTOOLCHAIN=local
 cd $WT || exit 2
 git checkout -q -- . ; git clean -fdq .
@@ -31,4 +31,4 @@ for c in $CHECKS; do
   [ $rc -eq 1 ] && caught="$caught[$sig]"
 done
 git checkout -q -- . ; git clean -fdq .
-echo "RESULT $P/$K clean_demo_rc=$clean_rc patched_demo_rc=$demo_rc suite_rc=$suite_rc checks:$caught"
+echo "RESULT $P/$K round=$R clean_demo_rc=$clean_rc patched_demo_rc=$demo_rc suite_rc=$suite_rc checks:$caught"
